@@ -76,7 +76,7 @@ PROPS = {
                         'uN::from_str_radix(s, 16) is Ok(v) iff s is an optional + followed by >= 1 hex digits whose value v fits N bits (hexval)',
                         'format!("{:0Wx}", v) is the W-digit lower-case hex text of v and parses back to v; hex digits are not dashes (axioms in units/ids/lemmas.rs)',
                         'a str is determined by its characters (axiom_str_ext)',
-                        'NOT covered: Display/FromStr/serde impls of TraceId and SpanId (same two std calls behind fmt::Formatter / serde plumbing, which Verus cannot take)'],
+                        'Display::fmt: what write! puts into the Formatter is ghost state (`written`); the format literals are checked against the widths the property demands', 'NOT covered: the serde impls of TraceId and SpanId (the same two std calls behind serde\'s Serializer / Deserializer traits, which single-file Verus cannot import)'],
     },
     'C19': {
         'verus': [('jconv', '*'), ('dconv', '*'), ('oconv', '*')],
